@@ -51,6 +51,7 @@ def run(pid, tier):
         quantile.collect(o, pid, tier)
         import rejection
         rejection.collect_beta(o, pid, tier)
+        rejection.collect_mt(o, pid, tier)
         w = [json.loads(x) for x in lines]
         same = sum(1 for e in w if e.get('wa') == e.get('wb'))
         o.extra['wire_events'] = len(w); o.extra['judged_same_word_count'] = same
@@ -58,6 +59,9 @@ def run(pid, tier):
         if same < 0.8 * len(w):
             raise ToolError('fewer than 80%% of the wiring events follow the documented construction (%d of %d): vacuous' % (same, len(w)))
     if pid == 'C11':
+        import rejection
+        rejection.collect_mt(o, pid, tier)          # the Gamma kernel behind the gamma-normalisation path
+        rejection.collect_beta(o, pid, tier)        # the Beta kernel (f32: exact law) behind the stick-breaking path
         o.extra['construction_matched'] = matched
         if not any(k.startswith('stick') for k in matched) or not any(k.startswith('gamma') for k in matched):
             raise ToolError('both constructions must be exercised: %s' % list(matched)[:4])
@@ -72,6 +76,8 @@ def run(pid, tier):
             'Beta<f32> (Cheng BB and BC, both parameter orders, both sides of min(a,b) = 1): the LAW is decided as an exact ticket count over the 2^24 x 2^24 lattice of proposal and acceptance word '
             '(output = function of the proposal word, acceptance region = prefix of the acceptance lattice, both checked by probes) against the regularised incomplete beta function at the anchors of '
             'spec/BetaTable.tla (mpmath), slack 2^-20; Beta<f64> is NOT decided (2^53 proposal values cannot be enumerated)',
+            'Gamma with shape >= 1 (Marsaglia-Tsang), f64 and f32, POINTWISE: at the anchors of spec/MtTable.tla (7 shapes x up to 10 normal deviates) the value returned is d (1 + c x)^3 and the accepting uniform words are a prefix of relative length '
+            'min(1, exp(x^2/2 + d (1 - v + ln v))), the density ratio that makes the method exact (2^-32 / 2^-14); between the anchors NOT decided',
             'ONLY the composition layer is decided for the remaining families: ChiSquared, StudentT, FisherF, Pert, Exp, Gamma(shape <= 1), Normal(0,1), SkewNormal, InverseGaussian (plus its measured root-selection probability), NormalInverseGaussian are the documented functions of the crate\'s own primitives '
             '(StandardNormal, Exp1, Gamma with shape > 1, Beta) evaluated with the public API on a clone of the stream',
             'NOT decided: the laws of the primitives themselves (ziggurat: structure only, C06; Marsaglia-Tsang, Cheng BB/BC, Michael-Schucany-Haas, the inverse-CDF one-liners) and of every family not listed; '
